@@ -13,13 +13,13 @@ claim(
 )
 claim(
     'C01',
-    'string-shape summaries per branch, regex-AST facts (re._parser), reaching definitions, namespace binding, taint of reordering combinators',
+    'string-shape summaries per branch, regex-AST facts (re._parser), reaching definitions, namespace binding, taint of reordering combinators, memo-key completeness (sources of the cached value vs sources of the key), class-private name mangling of generated attribute names',
     'Decides on the current source: the rendering table of Term.__str__/Term.code per guarded branch (sign shown = sign written, no '
     'index = [t], self._NAME access, exact-key function replacement, verbatim stripping, named-period access); the replacement table '
     'and that every name the generated class needs is bound in the exec namespace; that normalised equation and code are one '
     'template formatted over one term list; index parsing (implicit 0, int of the whole INDEX group); structural facts of term_re '
     '(alternation priorities, word boundaries, keyword language, lookahead, identifier classes, optional whitespace); no reordering '
-    'on the symbol flow. Does not decide that the regex tokenises every program nor NumPy results.',
+    'on the symbol flow; a term cache is keyed by everything the term is computed from; generated attribute access is never `self.__name` (mangled in the class body); every generated statement is one single-target assignment (C01.R7 = C13.R5b). Does not decide that the regex tokenises every program nor NumPy results.',
     'DESIGN.md 4 C01',
 )
 claim(
@@ -58,17 +58,17 @@ claim(
     'Decides for BaseLinker.solve_t/evaluate_t/__init__: pre-hook, submodel passes, post-hook once per iteration in that order with '
     'the selection forwarded; one _evaluate and one counter increment per selected submodel; convergence = all |current-previous| < '
     'tol over linker and selected submodels, min_iter gate, 1..max_iter; same status stamped on linker and selection, counters reset; '
-    'KeyError discipline; span comparison idiom; LAGS/LEADS maxima; definite assignment; every option read (offset: K4). Does not '
+    'KeyError discipline; span comparison idiom (label-by-label comparison needs the length test); LAGS/LEADS maxima; definite assignment; every option read (offset: K4); the own check values of the linker keyed apart from those of the submodels; a NaN movement never counts as settled; the same up-front rejections as a single model (C08.R9; non-finite policy: K8). Does not '
     'decide numerical equality with the bare model.',
     'DESIGN.md 4 C08',
 )
 claim(
     'C13',
-    'who-may-exec provenance (through compile), format-string taint and field-count guard, exception-escape summaries with handler modelling and decided beliefs, result-dictionary store discipline (merge / insert / overwrite), __init__-chain event layout, end-of-input guard coverage',
+    'who-may-exec provenance (through compile), format-string taint and field-count guard, exception-escape summaries with handler modelling and decided beliefs (regex-AST anchoring of the fenced-block alternative), result-dictionary store discipline (merge / insert / overwrite), __init__-chain event layout and storage-slot collisions, end-of-input guard coverage, who-may-call table of outside effects over the parse/build call graph',
     'Decides: exec/eval occur in fsic/parser.py only in build_model on the text returned by build_model_definition; user text reaches '
     'str.format only brace-escaped; the set of exception classes that can escape parse_model over its call graph (explicit raises, '
     'asserts, raiser table) is within ParserError/SymbolError/IndentationError, each other site discharged by a named static fact; '
-    'names reserved by the BaseModel __init__ chain vs names the parser knows (K5: seven entries); a statement without a left-hand '
+    'names reserved by the BaseModel __init__ chain or whose storage slot (underscore + name) is taken vs names the parser knows (K5: ten entries); no call on the parse/build call graph that a string input can reach touches files, the OS, interpreter-wide settings or the warnings filters outside catch_warnings (C13.R8); a statement without a left-hand '
     'variable and a statement that is not one single-target Assign are rejected; no while loop/recursion; every conjunct of the '
     'completion predicate has an end-of-input rejection. Does not decide regex backtracking or instantiation success beyond reserved names.',
     'DESIGN.md 4 C13',
@@ -118,16 +118,16 @@ claim(
     'Decides: only four audited statements replace a series backing array, each storing an array that is 1-D of len(span) by '
     'construction or behind ndim/length guards; replacements take the old dtype; no effect on any path to a raise in add_variable/'
     '__setattr__/add_attribute; the strict guard has exactly the documented exemptions and dominates attribute creation; values and size '
-    'range over the same name list per class (BaseLinker: K7). Does not decide NumPy casting.',
+    'range over the same name list per class (BaseLinker: K7); the (name, label) paths and add_variable check the name / the storage slot before anything is set; properties with setters are exempt from the strict guard. Does not decide NumPy casting.',
     'DESIGN.md 4 C09',
 )
 claim(
     'C10',
-    'decision-table extraction, get/set sibling agreement, handler discipline',
+    'decision-tree reading of (base, selector, guards) per access with conditionals lifted out of values, get/set sibling agreement, handler discipline, interval reasoning on match counts, type admission of fallbacks',
     'Thin (library indexing semantics dominate). Decides: open slice ends default to the span ends, start/stop located separately, +1 '
     'exactly when the located stop is not a slice; __getitem__/__setitem__ resolve tuple keys identically and apply the same subscripts '
     'to the same array; every lookup failure is re-raised as KeyError(period) from e and no path returns a default position; fallback: '
-    '0 matches KeyError, 1 match position, several refused. Does not decide what list.index/get_loc select.',
+    '0 matches KeyError, 1 match position, several refused, the label compared as one value (no broadcasting of tuple labels); a fallback from a label to a collection of labels admits unhashable types only; item-access wrappers pass the index through (C10.R4 = C18.R1). Does not decide what list.index/get_loc select.',
     'DESIGN.md 4 C10',
 )
 claim(
@@ -145,7 +145,7 @@ claim(
     'Decides: the result is self.copy() and nothing writes the original; bool/int/str series default to False/0/\'\' (else coerced), others '
     'NaN via np.full(len(new span)); model defaults for status/iterations equal ModelInterface.__init__\'s initial values and keep caller '
     'fills; per-variable fill precedence; strict resolution and rejection before the copy; the new->old position map is built and '
-    'consumed without crossing. Does not decide label matching for repeated labels nor pandas Series.reindex.',
+    'consumed without crossing, the old values read from the copy (no shared elements of object series); no per-class memoised table is changed by a call; the pandas twin keeps the base result on default arguments. Does not decide label matching for repeated labels nor pandas Series.reindex.',
     'DESIGN.md 4 C12',
 )
 claim(
@@ -154,7 +154,7 @@ claim(
     'Decides: helpers never store into their input; lag/lead/dlog delegate with the stated arguments; shift refills the right end per '
     'sign; diff returns x - lag(x, d) (d == 0 shortcut: K6); eval populates helper table -> variables -> caller locals, deep-copies the '
     'default helper table, never writes the container, maps NameError to AttributeError from e naming the variable; the inclusive +1 in '
-    'expression indexes applies only to backticked-label integer stops. Does not decide numeric values at boundary shifts.',
+    'expression indexes applies only to backticked-label integer stops, and an index without any backtick is left as written. Does not decide numeric values at boundary shifts.',
     'DESIGN.md 4 C16',
 )
 claim(
